@@ -496,7 +496,8 @@ def resetForRetry (st : StageSt) : StageSt :=
 def hJumpToStage (c : Cfg) (s : State) (id src tgt : Nat) : List Txn :=
   let source := s.stage src
   let sc := c.stage src
-  if source.status != .running then [[.mark id]]     -- stale jump: the source is no longer RUNNING
+  if source.status != .running || s.canceled then [[.mark id]]     -- stale jump: the source is no longer RUNNING, or a cancel
+                                                                  -- has been accepted meanwhile (F56)
   else if tgt ≥ c.n then
     -- target not found: source TERMINAL (+ RUNNING tasks TERMINAL), CompleteStage
     [[.setStage src { source with status := .terminal,
